@@ -31,8 +31,11 @@ Local Open Scope string_scope.
    text with
      - a backslash in Fortran text, i.e. outside # lines (C-level escapes and
        splices, which the C pass applies before the Fortran cleaner),
-     - on a # line: a / inside a character constant, a / or a backslash
-       directly before a backslash-newline splice,
+     - on a # line: a / inside a character constant, a backslash directly
+       before a backslash-newline splice (both necessary: witnesses below), a /
+       directly before a splice (conservative: the scanner defers the decision
+       whether that / is text to the next line exactly as the cleaner does, so
+       the case is kept out of the claim),
      - a # that directly follows the leading & of a continuation line,
      - a line that holds nothing but blanks of a character literal.
    What happens there is covered by the differential run only (I vs M). *)
@@ -114,6 +117,25 @@ Proof.
   exists (lines_of ("x = 1 " ++ String (ascii_of_nat 92) "" ++ nl ++ "! c" ++ nl)). vm_compute. split; reflexivity.
 Qed.
 Print Assumptions C17_classification_refuted_code_splice.
+
+(* (5) on a # line a / inside a character constant opens a C comment for the
+       cleaner (here it swallows the line end and the next line becomes part of
+       the directive); (6) a backslash directly before a splice escapes the
+       first character of the next line, so that a blank there is text for the
+       scanner but leaves the cleaner's buffer blank *)
+Theorem C17_classification_refuted_slash_in_char_constant :
+  exists ls, parse_fortran ls = Ok [(true, [1; 2]); (false, [3])]%nat /\
+             S_lines ls = [(1, true); (2, false); (3, false)]%nat.
+Proof. exists (lines_of ("#'/*'" ++ nl ++ "*/'" ++ nl ++ "a" ++ nl)). vm_compute. split; reflexivity. Qed.
+Print Assumptions C17_classification_refuted_slash_in_char_constant.
+
+Theorem C17_classification_refuted_escaped_splice :
+  exists ls, parse_fortran ls = Ok [(true, [1])]%nat /\ S_lines ls = [(1, true); (2, true)]%nat.
+Proof.
+  exists (lines_of ("#" ++ String (ascii_of_nat 92) (String (ascii_of_nat 92) "") ++ nl ++ " " ++ nl)).
+  vm_compute. split; reflexivity.
+Qed.
+Print Assumptions C17_classification_refuted_escaped_splice.
 
 Theorem C17_classification_refuted_amp_hash :
   exists ls, parse_fortran ls = Ok [(true, [2]); (false, [3])]%nat /\ S_lines ls = [(2, false); (3, false)]%nat.
